@@ -623,7 +623,7 @@ def report(ctx, tree, prog, words, pname, cfg, o):
 def run_procs(ctx):
   rng = ctx.rng
   quick = ctx.tier == 'quick'
-  nprog = 100 if quick else 1400
+  nprog = 100 if quick else 1000
   ncfg = 3
   progs = []
   for k in range(nprog):
